@@ -281,8 +281,12 @@ def make_handler_class():
             self.H.out('CL')
             self.H.closed_seen = True
             self.H.sent_at_close = len(self.H.t.sent)
-            if self.H.raise_at == ('CL', None):
+            mode = getattr(self.H, 'on_close_mode', None)
+            if mode == 'raise':
                 raise RuntimeError('scripted: on_close raises')
+            if mode == 'suspend':
+                import asyncio
+                await asyncio.sleep(1000)      # virtual seconds: the application's on_close is suspended
     return RecHandler
 
 
@@ -421,6 +425,7 @@ class EngineRun:
             self.t.deliver((k, build_frame(s['frame']).serialize()))
             return
         if op == 'lost':
+            self.on_close_mode = s.get('on_close')
             self.t.deliver(simnet.EOF_MARK if s.get('mode', 'eof') == 'eof' else __import__('rsocket.exceptions').exceptions.RSocketTransportError())
             return
         oid = s.get('oid')
